@@ -85,6 +85,8 @@ def run_scenario(case, layer):
         if dt_ivs[i] is not None:
             kw['minimum_tp_rts_cts_dt_interval'] = dt_ivs[i]
         node = W.stack('N%d' % i, **kw)
+        if rng.random() < 0.2:
+            node.ecu.add_timer(rng.choice([0.003, 0.03, 0.9, 2.0]), lambda c: True)       # unrelated periodic application timer
         W.listen_ecu(node, ('ecu', i))
         for k in range(2 if layouts[i] == 'ca2' else 1):
             a = addrs[len(eps)]
